@@ -496,6 +496,41 @@ mutual
     | (k, v) :: rest => (k, dropRecovered v) :: dropRecoveredF rest
 end
 
+mutual
+  /-- `dropRecovered`, and an empty-but-non-nil slice becomes the nil slice (`Encode` omits both) -/
+  def canon : Val → Val
+    | .pos p => .pos (dropPos p)
+    | .ptr v => .ptr (canon v)
+    | .iface v => .iface (canon v)
+    | .slice [] => .snil
+    | .slice (e :: elems) => .slice (canon e :: canonL elems)
+    | .struct name _ fields => .struct name none (canonF fields)
+    | v => v
+  def canonL : List Val → List Val
+    | [] => []
+    | v :: rest => canon v :: canonL rest
+  def canonF : List (String × Val) → List (String × Val)
+    | [] => []
+    | (k, v) :: rest => (k, canon v) :: canonF rest
+end
+
+mutual
+  /-- no empty-but-non-nil slice anywhere -/
+  def noEmptySlice : Val → Bool
+    | .ptr v => noEmptySlice v
+    | .iface v => noEmptySlice v
+    | .slice [] => false
+    | .slice (e :: elems) => noEmptySlice e && noEmptySliceL elems
+    | .struct _ _ fields => noEmptySliceF fields
+    | _ => true
+  def noEmptySliceL : List Val → Bool
+    | [] => true
+    | v :: rest => noEmptySlice v && noEmptySliceL rest
+  def noEmptySliceF : List (String × Val) → Bool
+    | [] => true
+    | (_, v) :: rest => noEmptySlice v && noEmptySliceF rest
+end
+
 /-! ### JsonWF -/
 
 /-- values for which `encodeValue` returns the zero `reflect.Value` (a nil slice element of this
@@ -508,12 +543,17 @@ def isNoValue : Val → Bool
   | .uint _ _ n => n == 0
   | _ => false
 
+/-- a `Pos` held directly by a slice reaches `reflect.StructOf` with unexported fields -/
+def isPosVal : Val → Bool
+  | .pos _ => true
+  | _ => false
+
 def posWF (p : Pos) : Bool :=
   p.inRange && (p.isValid || decide (p = Pos.zero) || decide (p = Pos.recovered))
 
 mutual
   /-- `JsonWF`: `v` has static type `τ` in `σ`, positions are valid, zero or recovered, there is no
-      empty-but-non-nil slice and no slice element that encodes to nothing, strings survive
+      slice element that encodes to nothing, strings survive
       `encoding/json` (valid UTF-8), unsigned values fit, operator values are ones that
       `UnmarshalText` maps back from their `String()`. -/
   def wf (σ : Schema) : GoType → Val → Bool
@@ -534,7 +574,7 @@ mutual
         decide (nameOfBytes (bytesOfName name) = name) &&
         namesOK ((σ.fieldsOf name).map (·.1)) && wfFields σ (σ.fieldsOf name) fs
     | .slice _, .snil => true
-    | .slice ε, .slice elems => !elems.isEmpty && wfElems σ ε elems
+    | .slice ε, .slice elems => wfElems σ ε elems
     | .struct name ftys, .struct name' _ fs =>
       decide (name = name') && namesOK (ftys.map (·.1)) && wfFields σ ftys fs
     | _, _ => false
@@ -544,7 +584,7 @@ mutual
     | _, _ => false
   def wfElems (σ : Schema) (ε : GoType) : List Val → Bool
     | [] => true
-    | v :: vs => wf σ ε v && !isNoValue v && wfElems σ ε vs
+    | v :: vs => wf σ ε v && !isNoValue v && !isPosVal v && wfElems σ ε vs
 end
 
 /-! ### re-annotation: two values that `Encode` cannot tell apart -/
@@ -623,5 +663,61 @@ def mkSchema (structs : List (String × List (String × GoType))) (nodeByName : 
     impls := impls
     tokStr := tokStrOf tokenName tokenIndex
     unm := unmOf tables consts }
+
+end ShVerif.C15
+
+namespace ShVerif.C15
+
+/-! ### predicates over the regenerated tables (decided in `Props/C15.lean`) -/
+
+/-- the `reflect.Kind` a static type has -/
+def kindOf : GoType → String
+  | .pos => "Struct"
+  | .bool => "Bool"
+  | .str => "String"
+  | .uint 8 _ => "Uint8"
+  | .uint 32 _ => "Uint32"
+  | .uint _ _ => "Uint?"
+  | .ptr _ => "Pointer"
+  | .iface _ => "Interface"
+  | .slice _ => "Slice"
+  | .struct _ _ => "Struct"
+  | .other _ => "?"
+
+mutual
+  /-- a field type `encodeValue`/`decodeValue` handle: a kind of the switch, pointers point to
+      known structs, interfaces are known, inline structs have usable field names -/
+  def typeOK (kinds : List String) (structNames ifaceNames : List String) : GoType → Bool
+    | .ptr t => kinds.contains "Pointer" && structNames.contains t
+    | .iface i => kinds.contains "Interface" && ifaceNames.contains i
+    | .slice e => kinds.contains "Slice" && typeOK kinds structNames ifaceNames e
+    | .struct _ fs => kinds.contains "Struct" && namesOK (fieldNames fs) && typesOK kinds structNames ifaceNames fs
+    | .other _ => false
+    | τ => kinds.contains (kindOf τ)
+  def typesOK (kinds : List String) (structNames ifaceNames : List String) : List (String × GoType) → Bool
+    | [] => true
+    | (_, τ) :: rest => typeOK kinds structNames ifaceNames τ && typesOK kinds structNames ifaceNames rest
+  def fieldNames : List (String × GoType) → List String
+    | [] => []
+    | (k, _) :: rest => k :: fieldNames rest
+end
+
+/-- every struct: usable field names, every field type supported -/
+def schemaOK (kinds : List String) (structs : List (String × List (String × GoType))) (ifaceNames : List String) : Bool :=
+  structs.all fun (_, fs) =>
+    namesOK (fs.map (·.1)) && typesOK kinds (structs.map (·.1)) ifaceNames fs
+
+/-- every constant of every operator type survives `String()` then `UnmarshalText` -/
+def opRoundTrip (σ : Schema) (consts : List (String × List (String × Nat))) : Bool :=
+  consts.all fun (t, cs) => cs.all fun (_, v) => decide (v ≠ 0) && decide (σ.unm t (σ.tokStr v) = some v)
+
+/-- within one operator type, two constants with the same string have the same value -/
+def opInjective (σ : Schema) (consts : List (String × List (String × Nat))) : Bool :=
+  consts.all fun (_, cs) => cs.all fun (_, v) => cs.all fun (_, w) =>
+    decide (σ.tokStr v = σ.tokStr w → v = w)
+
+def sortedLE : List Nat → Bool
+  | a :: b :: rest => decide (a ≤ b) && sortedLE (b :: rest)
+  | _ => true
 
 end ShVerif.C15
